@@ -21,14 +21,14 @@ OBLIGATIONS = [
     'C02.evalD_eval', 'C02.execD_exec', 'C02.evalD_inDom',
     # expression level
     'C02.binop_sound', 'C02.selfW_trE', 'C02.trE_both', 'C02.trE_sound', 'C02.trE_cond_sound', 'C02.transpile_expr_sound',
-    'C02.transpile_port_assign_sound', 'C02.transpile_cond_sound',
+    'C02.transpile_port_assign_sound', 'C02.transpile_cond_sound', 'C02.val_ite',
     # statement / cycle / history level
     'C02.trS_sound', 'C02.cycle_sound', 'C02.transpile_seq_sound_partial', 'C02.fstore_laws', 'C02.agree0', 'C02.crel0', 'C02.okS0',
     'C02.refuse_or_sound', 'C02.refuse_complete',
     # combinational bodies
     'C02.p2p_exec', 'C02.comb_sound', 'C02.transpile_comb_sound_all', 'C02.supported_comb', 'C02.crelC', 'C02.okC0', 'C02.norap0',
     # power-up
-    'C02.cycle_soundB', 'C02.runD_mono', 'C02.execD_masked', 'C02.powerup_crel', 'C02.initial_block_sound', 'C02.trModule_items',
+    'C02.cycle_soundB', 'C02.runD_mono', 'C02.execD_masked', 'C02.powerup_crel', 'C02.init_list_last', 'C02.initial_block_sound', 'C02.trModule_items',
     'C02.transpile_seq_sound_from_powerup', 'C02.powerup_safe_of_noOutRead', 'C02.powerup0',
     # negative results (each replayed on the real transpiler by the witnesses)
     'C02.or_value_counterexample', 'C02.narrow_compare_counterexample', 'C02.cmp_rhs_unparenthesised_counterexample',
